@@ -374,7 +374,7 @@ def runStep (fuel : Nat) : Step → Cons → Ctx → Prog (Cons × Ctx)
     pure (c', { x with reg := some (bytes, c.mode) }.emit ("C" ++ toHex bytes))
   | .dec body, c, x =>
     match x.reg with
-    | none => .fail (.panic "script: no captured value")
+    | none => pure (c, x.emit "Dnone")
     | some (bytes, m) =>
       -- `Captured::decode`: a fresh top-level decode over a `BytesSource`
       match runG (decodeTop m (fun ic => do
@@ -384,7 +384,7 @@ def runStep (fuel : Nat) : Step → Cons → Ctx → Prog (Cons × Ctx)
       | .error e => .fail e
   | .decp body, c, x =>
     match x.reg with
-    | none => .fail (.panic "script: no captured value")
+    | none => pure (c, x.emit "Pnone")
     | some (bytes, m) =>
       -- `Captured::decode_partial`: the remainder stays in the value even if decoding fails;
       -- a failing partial decode is reported in the trace, it does not stop the script
